@@ -1143,6 +1143,28 @@ def field_transport(ctx, facts, rule):
     A, B = pn.get(3), pn.get(4)
     call = flow.find_calls(zb, re.compile(r"Segment::<'a>::from_entries$"))
     mp = flow.find_calls(zb, re.compile(r"multiplication_protocol$"))
+    seg_args = [flow.expr_of(zb, a, max_depth=40) for a in call[0][1]["args"]] if len(call) == 1 else None
+    if not call:
+        # the segment may be assembled by a straight-line helper of the module that is handed the operands: its
+        # from_entries arguments, with the caller's values substituted for its parameters
+        for hb_, ht in zb.calls():
+            fn_ = F.callee(ht)[0] or ""
+            hb = facts.bodies.get(fn_)
+            if hb is None or hb.coroutine or not fn_.startswith(root.rsplit("::", 1)[0]):
+                continue
+            hc = flow.find_calls(hb, re.compile(r"Segment::<'a>::from_entries$"))
+            if len(hc) != 1 or any(hb.term(x)["k"] == "switch" for x in hb.live_blocks()):
+                continue
+            outer = [flow.expr_of(zb, a, max_depth=40) for a in ht["args"]]
+
+            def subst(x):
+                if isinstance(x, tuple):
+                    if len(x) == 2 and x[0] == "arg" and isinstance(x[1], int) and 1 <= x[1] <= len(outer):
+                        return outer[x[1] - 1]
+                    return tuple(subst(y) for y in x)
+                return x
+            seg_args = [subst(flow.expr_of(hb, a, max_depth=40)) for a in hc[0][1]["args"]]
+            call = [(hb_, ht)]
     if len(call) != 1 or len(mp) != 1 or A is None or B is None:
         ctx.ob(rule, "zkp_multiply:records-one-segment", False, "zkp_multiply does not build exactly one segment from one multiplication", site_of(zb))
         return
@@ -1167,7 +1189,7 @@ def field_transport(ctx, facts, rule):
     WANT = {"x_left": ("a", "left"), "x_right": ("a", "right"), "y_left": ("b", "left"), "y_right": ("b", "right"), "prss_left": ("prss", "left"), "prss_right": ("prss", "right"), "z_right": ("z", "right")}
     _, m = sinks[fe]
     for k, fld in sorted(m.items()):
-        got = role(flow.expr_of(zb, call[0][1]["args"][k - 1], max_depth=40))
+        got = role(seg_args[k - 1])
         ctx.ob(rule, f"zkp_multiply:{fld}", got == WANT[fld], f"{fld} = {got[0]}.{got[1]}" if got == WANT[fld] else f"{fld} is recorded as {got[0]}.{got[1]}, expected {WANT[fld][0]}.{WANT[fld][1]}: the proof is about other values than the ones multiplied", site_of(zb, call[0][0]))
     margs = [flow.expr_of(zb, a, max_depth=40) for a in mp[0][1]["args"]]
     got = []
